@@ -296,3 +296,225 @@ Fixpoint bad (i : nat) (l : list case) : list nat :=
   | [] => []
   | c :: r => if case_ok c then bad (S i) r else i :: bad (S i) r
   end.
+
+(* ------------------------------------------------------------------ *)
+(* Two threads: a release while a wait() is in progress.
+
+   The usual way to shut down a timed loop that runs in its own thread: the
+   loop thread is blocked inside delay.wait() (in hal.waitForNotifierAlarm) and
+   ANOTHER thread calls delay.free() or leaves the with-block.  hal.stopNotifier
+   wakes the waiting thread, whose wait() then runs its remaining statements on
+   an object that has meanwhile been released.
+
+   wait() is therefore split at the HAL call into its two halves; the other
+   thread's operations (whole operations of [op]: free()/__exit__/__enter__ are
+   atomic with respect to the halves, time passing is a [Body]) can lie between
+   them.
+
+   Modelled HAL behaviour (assumptions, validated by the correspondence run on
+   the simulated HAL with a real second thread):
+     - a thread inside hal.waitForNotifierAlarm comes back at the alarm, or at
+       once when the notifier is stopped: the call returns at
+       [hal_wait (alarm d) now] taken when the second half runs;
+     - hal.updateNotifierAlarm on a handle that has been cleaned does nothing
+       ([hal_update]);
+     - the binding rejects None where a handle is expected: TypeError. *)
+
+(* hal.updateNotifierAlarm(<the handle of d>, t): the alarm the HAL holds
+   afterwards *)
+Definition hal_update (d : nd) (t : Z) : option Z :=
+  match released d with
+  | O => Some t
+  | S _ => None
+  end.
+
+(* first half of wait():
+     handle = self._notifier
+     if handle is None: return
+     hal.waitForNotifierAlarm(handle)          <- the call is entered
+   [None]: wait() has returned (at once).  [Some h]: the thread is inside the
+   HAL call; h is its local variable `handle` seen as "is not None" *)
+Definition wait_begin (d : nd) : option bool :=
+  if live d then Some true else None.
+
+(* second half of wait(), run at FPGA time [now] by the thread whose local
+   variable `handle` is [handle], on the object as it is THEN:
+     <hal.waitForNotifierAlarm(handle) returns>
+     self._expiry_time += self.delay_period
+     self._update_alarm(handle)       i.e. hal.updateNotifierAlarm(handle, self._expiry_time)
+   Result: the object, the FPGA time at which wait() is left, and whether it is
+   left by an exception (the TypeError of a None handle) instead of returning *)
+Definition wait_end (d : nd) (handle : bool) (now : Z) : nd * Z * bool :=
+  let t := hal_wait (alarm d) now in
+  let e := expiry d + period d in
+  if handle
+  then (mkND (period d) e (live d) (hal_update d e) (released d), t, false)
+  else (mkND (period d) e (live d) (alarm d) (released d), t, true).
+
+(* what the two threads do, in the order in which it happens *)
+Inductive cop :=
+| Other (o : op)   (* a whole operation of [op], by the thread that is not
+                      inside wait() (while no wait() is in progress: by any
+                      thread) *)
+| WaitBegin        (* the loop thread calls wait(): first half *)
+| WaitEnd.         (* the loop thread's HAL call returns: second half *)
+
+Record conc := mkC {
+  c_obj     : nd;     (* the object and the HAL side *)
+  c_now     : Z;      (* the FPGA clock *)
+  c_pend    : option (option bool * Z);
+                      (* the wait() in progress: what its first half gave
+                         ([wait_begin]) and the FPGA time of the call *)
+  c_outside : bool    (* the history has left what is modelled: two wait()
+                         calls in progress at once, or a second half without a
+                         first; such a step changes nothing else *)
+}.
+
+Definition cinit (d : nd) (t : Z) : conc := mkC d t None false.
+
+Definition cflag (s : conc) : conc := mkC (c_obj s) (c_now s) (c_pend s) true.
+
+Definition cstep (s : conc) (o : cop) : conc :=
+  match o, c_pend s with
+  | Other Wait, Some _ => cflag s
+  | Other o', _ =>
+      let s' := step (c_obj s, c_now s) o' in
+      mkC (fst s') (snd s') (c_pend s) (c_outside s)
+  | WaitBegin, None =>
+      mkC (c_obj s) (c_now s) (Some (wait_begin (c_obj s), c_now s)) (c_outside s)
+  | WaitBegin, Some _ => cflag s
+  | WaitEnd, Some (Some h, _) =>
+      let r := wait_end (c_obj s) h (c_now s) in
+      mkC (fst (fst r)) (snd (fst r)) None (c_outside s)
+  | WaitEnd, Some (None, _) => mkC (c_obj s) (c_now s) None (c_outside s)
+  | WaitEnd, None => cflag s
+  end.
+
+Definition crun (s : conc) (h : list cop) : conc := fold_left cstep h s.
+
+(* one record per wait() that has been left: FPGA time of the call, FPGA time
+   at which it was left, left by an exception *)
+Fixpoint clog (s : conc) (h : list cop) : list (Z * Z * bool) :=
+  match h with
+  | [] => []
+  | o :: r =>
+      let s' := cstep s o in
+      match o, c_pend s with
+      | Other Wait, None => (c_now s, c_now s', false) :: clog s' r
+      | WaitEnd, Some (Some hd, c) =>
+          (c, c_now s', snd (wait_end (c_obj s) hd (c_now s))) :: clog s' r
+      | WaitEnd, Some (None, c) => (c, c, false) :: clog s' r
+      | _, _ => clog s' r
+      end
+  end.
+
+(* the releasing operations of a two-thread history *)
+Definition crel (o : cop) : bool :=
+  match o with Other o' => is_free o' | _ => false end.
+
+(* a sequential use seen as a two-thread history: every wait() runs its two
+   halves with nothing in between *)
+Definition seq_cops (ops : list op) : list cop :=
+  flat_map (fun o => match o with Wait => [WaitBegin; WaitEnd] | _ => [Other o] end) ops.
+
+(* the sequential use that a two-thread history amounts to when nobody releases
+   the object: what the other thread does during a wait() happens before the
+   wait() whose HAL call returns afterwards *)
+Definition lin (h : list cop) : list op :=
+  flat_map (fun o => match o with Other o' => [o'] | WaitBegin => [] | WaitEnd => [Wait] end) h.
+
+(* well-bracketed: halves alternate, no other wait() while one is in progress,
+   no wait() left in progress at the end ([inside]: one is in progress now) *)
+Fixpoint cwf (inside : bool) (h : list cop) : bool :=
+  match h with
+  | [] => negb inside
+  | WaitBegin :: r => negb inside && cwf true r
+  | WaitEnd :: r => inside && cwf false r
+  | Other Wait :: r => negb inside && cwf inside r
+  | Other _ :: r => cwf inside r
+  end.
+
+(* what the other thread does while the wait() is blocked and the object still
+   armed: time passes, a with-block is entered *)
+Definition cquiet (o : cop) : bool :=
+  match o with Other (Body _) => true | Other Enter => true | _ => false end.
+
+(* operations of the other thread that take no FPGA time and are no wait() *)
+Definition cinstant (o : cop) : bool :=
+  match o with Other Free => true | Other Enter => true | Other (Exit _) => true | _ => false end.
+
+Fixpoint cbodies (h : list cop) : Z :=
+  match h with
+  | [] => 0
+  | Other (Body b) :: r => b + cbodies r
+  | _ :: r => cbodies r
+  end.
+
+(* observations of a two-thread history: a snapshot after every operation
+   except bodies and first halves (during a first half nothing observable
+   changes) *)
+Definition csnap_of (s : conc) : snap := (c_now s, alarm (c_obj s), released (c_obj s)).
+Fixpoint csnaps (s : conc) (h : list cop) : list snap :=
+  match h with
+  | [] => []
+  | o :: r =>
+      let s' := cstep s o in
+      match o with
+      | Other (Body _) => csnaps s' r
+      | WaitBegin => csnaps s' r
+      | _ => csnap_of s' :: csnaps s' r
+      end
+  end.
+
+Fixpoint cexit_log (s : conc) (h : list cop) : list bool :=
+  match h with
+  | [] => []
+  | o :: r =>
+      let s' := cstep s o in
+      match o with
+      | Other (Exit e) => propagates e (snd (exit_ (c_obj s) e)) :: cexit_log s' r
+      | _ => cexit_log s' r
+      end
+  end.
+
+Fixpoint center_log (s : conc) (h : list cop) : list bool :=
+  match h with
+  | [] => []
+  | o :: r =>
+      let s' := cstep s o in
+      match o with
+      | Other Enter => snd (enter (c_obj s)) :: center_log s' r
+      | _ => center_log s' r
+      end
+  end.
+
+(* prediction for a two-thread case: as [predict], then per wait() left through
+   its two halves the FPGA time at which it was left and 1 if by an exception,
+   then 1 if the history left the model *)
+Definition cpredict (P : Q) (t0 : Z) (h : list cop) : option (list Z) :=
+  match create_opt P t0 with
+  | None => None
+  | Some d =>
+      let s := cinit d t0 in
+      Some (period d :: flat (snap_of (d, t0)) ++ flat_map flat (csnaps s h)
+              ++ map (fun b : bool => if b then 1 else 0) (cexit_log s h)
+              ++ map (fun b : bool => if b then 1 else 0) (center_log s h)
+              ++ flat_map (fun r : Z * Z * bool => let '(c, t, e) := r in [c; t; if e then 1 else 0]) (clog s h)
+              ++ [if c_outside (crun s h) then 1 else 0])
+  end.
+
+Definition ccase : Type := Q * Z * list cop * option (list Z).
+
+Definition ccase_ok (c : ccase) : bool :=
+  let '(P, t0, h, observed) := c in
+  match cpredict P t0 h, observed with
+  | None, None => true
+  | Some l, Some l' => list_eqb Z.eqb l l'
+  | _, _ => false
+  end.
+
+Fixpoint cbad (i : nat) (l : list ccase) : list nat :=
+  match l with
+  | [] => []
+  | c :: r => if ccase_ok c then cbad (S i) r else i :: cbad (S i) r
+  end.
